@@ -27,7 +27,12 @@ PAIRS = [
  (True, "def f(self, **kw):\n    i = self.r.copy()\n    c = kw.pop('c', False)\n    return g(i, c)", "def f(self, **kw):\n    c = kw.pop('c', False)\n    i = self.r.copy()\n    return g(i, c)"),
  (True, "def f(m, c, i, flag):\n    if isinstance(c, K):\n        o = {'cloneValueFlag': flag}\n    else:\n        o = {}\n    m.set(i, c.clone(**o))", "def f(m, c, i, flag):\n    if isinstance(c, K):\n        m.set(i, c.clone(cloneValueFlag=flag))\n    else:\n        m.set(i, c.clone())"),
  (True, "def f(self, a, b):\n    return self.__class__(a, *(self.t + (b,)))", "def f(self, a, b):\n    return self.__class__(a, *self.t, b)") if False else (True, "def f(a):\n    return g(a)", "def f(a):\n    return g(a)"),
+ # star arguments built through a local (the spelling an inlined helper leaves behind)
+ (True, "def f(self, t):\n    s = self.a + (t,)\n    return self.c(self.b, *s)", "def f(self, t):\n    return self.c(self.b, *self.a, t)"),
+ (True, "def f(self, t):\n    s = (t,) + self.a\n    return self.c(self.b, *s)", "def f(self, t):\n    return self.c(self.b, t, *self.a)"),
  # ---------------- must NOT be proven equivalent
+ (False, "def f(self, t):\n    s = (t,) + self.a\n    return self.c(self.b, *s)", "def f(self, t):\n    return self.c(self.b, *self.a, t)"),
+ (False, "def f(self, t):\n    s = self.a + [t]\n    return self.c(self.b, *s)", "def f(self, t):\n    return self.c(self.b, *self.a, t)"),
  (False, "def f(m, c, i, flag):\n    if isinstance(c, K):\n        o = {'cloneValueFlag': flag}\n    else:\n        o = {}\n    m.set(i, c.clone(**o))", "def f(m, c, i, flag):\n    if isinstance(c, K):\n        m.set(i, c.clone())\n    else:\n        m.set(i, c.clone(cloneValueFlag=flag))"),
  (False, "def f(m, c, i, flag):\n    if isinstance(c, K):\n        o = {'cloneValueFlag': flag}\n    else:\n        o = {}\n    h(o)\n    m.set(i, c.clone(**o))", "def f(m, c, i, flag):\n    if isinstance(c, K):\n        h({'cloneValueFlag': flag})\n        m.set(i, c.clone(cloneValueFlag=flag))\n    else:\n        h({})\n        m.set(i, c.clone())"),
  (False, "def f(self, **kw):\n    i = self.r.copy()\n    c = kw.pop('c')\n    return g(i, c)", "def f(self, **kw):\n    c = kw.pop('c')\n    i = self.r.copy()\n    return g(i, c)"),
